@@ -345,7 +345,9 @@ func c02Judge(c *fw.Ctx, chain []c02State) {
 			return nil
 		}
 		_, err := policy.NewPolicyVerifier(bt.b).VerifyMergeable(scen.Ctx, refMain, "refs/heads/feature")
-		if err != nil && errors.Is(err, policy.ErrVerificationFailed) && strings.Contains(err.Error(), "not enough approvals") {
+		if err != nil && errors.Is(err, policy.ErrVerificationFailed) {
+			// (inside verifyMergeable only the approval / file-policy steps, which run after
+			// the policy was loaded and chain-verified, report ErrVerificationFailed)
 			// the policy chain loaded; the prediction itself (no approvals recorded) is not C02's subject
 			return nil
 		}
